@@ -6,8 +6,8 @@ import ScVerif.C07.EventsLemmas
 consumer receives that very pointer.  The theorems are about the model of Events.lean (writers'
 sends and the pipeline steps of any number of subscribers of a Collection or a Value — backpressure or
 lossy, masked or not, with or without an include filter (whatever it decides: pass, drop, replace by an
-ADD / a REMOVE; for a lossy subscriber it runs behind the merger) — interleaved in ANY order), for every read-mask
-projection `proj`:
+ADD / a REMOVE; for a lossy subscriber it runs behind the merger), seeds of subscriptions that ask for the current
+value(s) first — interleaved in ANY order), for every read-mask projection `proj`:
 
 * no step ever writes to an allocated event cell: whatever a consumer received, and whatever the bus
   handed out, keeps its contents for ever, whoever else holds the same pointer and however far a
@@ -116,6 +116,13 @@ example :
       .send ⟨.update, 1, some 12, some 13, false⟩, .forward 0, .mergeIn 1, .emitIncl 1 .toRemove]
     s.subs.map (·.out) = [[0, 1], [3]] ∧ s.heap 2 = ⟨.update, 1, some 11, some 13, false⟩ ∧
       s.heap 3 = ⟨.remove, 1, some 11, none, false⟩ ∧ s.heap 1 = ⟨.update, 1, some 12, some 13, false⟩ := by decide
+
+/-- seeds: a subscriber that asks for the current items first is handed events its own Pull goroutine builds (cells 1 and 3
+here; the masked subscriber's consumer gets the filtered cell 3), never a cell of the bus (cell 0) -/
+example :
+    let s := run id ES.init [.sub false false, .send ⟨.add, 1, none, some 5, false⟩, .forward 0,
+      .sub false false, .seed 1 ⟨.add, 1, none, some 5, true⟩, .sub true true, .seed 2 ⟨.add, 1, none, some 5, true⟩]
+    s.subs.map (·.out) = [[0], [1], [3]] ∧ s.owner 0 = none ∧ s.owner 1 = some 1 ∧ s.owner 3 = some 2 := by decide
 
 /-- a Value: `DropExcess` drops the older pending pointer; the lossy consumer then receives the bus's own cell (cell 1),
 the very cell the backpressure consumer received, and nothing was written -/
